@@ -1,4 +1,4 @@
-import SgModel.Lemmas.WalFlipLen
+import SgModel.Lemmas.WalTailInv
 /-!
 # C15 — the WAL replays exactly the durable prefix, in order
 
@@ -363,14 +363,97 @@ theorem C15_model_refines_spec_flip_len (dec : Dec) (ops : List Op) (hN : ops.le
   exact specFlipLen_of_dirOK hinv.ok (hsub.nodup hnd) hget (fun r hr => hpf _ (hmem r hr)) hloc
     mask hm top
 
+/-- **A changed byte inside a torn tail is harmless** (direct form, all images): a file holding
+intact records `rs` followed by a torn tail — the first `k` bytes of the frame of a record `r`
+that was being written, `k` less than the frame length — in which any one byte (any offset
+`q`, any mask) was changed replays to exactly `rs`: every intact record is delivered, nothing
+is delivered from the tail, so never a wrong entry.  The replay ends as for a torn tail, or
+with an error when the byte lay in the tail's length prefix.  Decoder contract: `WFRec` on
+the intact records, prefix-free (`PFRec`) on `r`. -/
+theorem C15_flip_tail_no_wrong_entry (dec : Dec) (rs : List Rec) (hw : ∀ x ∈ rs, WFRec dec x)
+    (r : Rec) (h : PFRec dec r) (k q : Nat) (mask : UInt8) (hk : k < (frame r).length) :
+    ∃ e, replay Mode.fixed dec (frames rs ++ flipByte ((frame r).take k) q mask) = (rs, e) :=
+  replay_tail_flip rs hw h k q mask hk
+
+/-- **A changed length prefix is reported or looks torn, never accepted** (direct form): intact
+records `pre`, then the frame of `r` with its 4-byte length prefix replaced by any 4 bytes
+`lb` that decode to a different length, then any bytes `post`: exactly `pre` is delivered.
+The damaged record and whatever the wrong length frames over it are not. -/
+theorem C15_flip_len_error_or_torn_stop (dec : Dec) (pre : List Rec) (hw : ∀ x ∈ pre, WFRec dec x)
+    (r : Rec) (h : PFRec dec r) (lb post : Bytes) (hl4 : lb.length = 4)
+    (hne : fromLE lb ≠ r.entry.length + 12) :
+    ∃ e, replay Mode.fixed dec (frames pre ++ (lb ++ (body r ++ post))) = (pre, e) :=
+  replay_len_flip pre hw h lb post hl4 hne
+
+/-- why the length-prefix theorems ask for a *prefix-free* decoder: `decLoose` honours the
+contract `WFEntry` on the entry `[5, 5, 0, 0, 0, 9]` but also "decodes" a cut-off copy of it as
+a one-byte entry; flipping the frame length 18 → 13 then makes the repaired reader accept
+the wrong record `⟨1, [5]⟩` (its "checksum" `05 00 00 00` is read from the entry's own bytes).
+Real bincode runs out of bytes on a cut-off entry, which is what `PFRec` states. -/
+theorem C15_counterexample_len_flip_needs_prefix_free :
+    (∀ rest, decLoose (([5, 5, 0, 0, 0, 9] : Bytes) ++ rest) = some 6)
+    ∧ replay Mode.fixed decLoose (flipByte (frame ⟨1, [5, 5, 0, 0, 0, 9]⟩) 0 31)
+        = ([⟨1, [5]⟩], End.ok) :=
+  ⟨decLoose_contract, by decide⟩
+
+/-- **Every single-byte flip inside a torn tail**: for every history (entries pairwise distinct,
+decoder contract in its prefix-free form), every file `i` of the directory and every offset
+`p` behind its whole records (`locate = none`: the byte lies in the torn tail a crash left
+there), what the model observes of the directory with that byte XOR-ed satisfies `specFlip`:
+all whole records of the file are still delivered, unaltered, and nothing from the tail. -/
+theorem C15_model_refines_spec_flip_tail (dec : Dec) (ops : List Op) (hN : ops.length < 256 ^ 8)
+    (he : ∀ e ∈ opEntries ops, PFEntry dec e) (hnd : (opEntries ops).Nodup)
+    (i p : Nat) (f : File) (mask : UInt8) (top : Nat)
+    (hget : (dir (run Mode.fixed dec ops))[i]? = some f)
+    (hloc : locate (recsOf dec f) p = none) :
+    let s := run Mode.fixed dec ops
+    specFlip ((dir s).map (recsOf dec)) i p
+      (observe Mode.fixed dec
+        ((dir s).modify i (fun f => { f with data := flipByte f.data p mask })) top) = true := by
+  intro s
+  have he' : ∀ e ∈ opEntries ops, WFEntry dec e := fun e h => (he e h).1
+  have hinv : Inv dec s := inv_run ops hN he'
+  have hsub := (allRecs_foldl ops {} 0 (inv_init dec) (Nat.le_refl _) (by simpa using hN) he').1
+  have h0 : allRecs dec ({} : State) = [] := rfl
+  simp only [h0, List.map_nil, List.nil_append] at hsub
+  obtain ⟨_, t, hdata, ht⟩ := pfdir_run ops hN he f (List.mem_of_getElem? hget)
+  exact specFlipTail_of_dirOK hinv.ok (hsub.nodup hnd) hget hdata ht hloc mask top
+
+/-- **`specFlip` holds of the model for every byte that is not part of a sequence field**: the
+three region theorems together.  (For a byte of a sequence field `specFlip` is false of model
+and code: `C15_counterexample_seqflip_undetected`, the known finding.) -/
+theorem C15_model_refines_spec_flip_all_but_seq (dec : Dec) (ops : List Op) (hN : ops.length < 256 ^ 8)
+    (he : ∀ e ∈ opEntries ops, PFEntry dec e) (hnd : (opEntries ops).Nodup)
+    (i p : Nat) (f : File) (mask : UInt8) (hm : mask ≠ 0) (top : Nat)
+    (hget : (dir (run Mode.fixed dec ops))[i]? = some f)
+    (hseq : ∀ j, locate (recsOf dec f) p ≠ some (j, .seq)) :
+    let s := run Mode.fixed dec ops
+    specFlip ((dir s).map (recsOf dec)) i p
+      (observe Mode.fixed dec
+        ((dir s).modify i (fun f => { f with data := flipByte f.data p mask })) top) = true := by
+  have he' : ∀ e ∈ opEntries ops, WFEntry dec e := fun e h => (he e h).1
+  cases hloc : locate (recsOf dec f) p with
+  | none => exact C15_model_refines_spec_flip_tail dec ops hN he hnd i p f mask top hget hloc
+  | some jg =>
+    obtain ⟨j, g⟩ := jg
+    cases g with
+    | seq => exact absurd hloc (hseq j)
+    | len =>
+      exact C15_model_refines_spec_flip_len dec ops hN he' hnd (fun e h => (he e h).2) i p j f mask hm
+        top hget hloc
+    | entry =>
+      exact C15_model_refines_spec_flip dec ops hN he' hnd i p j .entry f mask hm top hget hloc
+        (Or.inl rfl)
+    | cksum =>
+      exact C15_model_refines_spec_flip dec ops hN he' hnd i p j .cksum f mask hm top hget hloc
+        (Or.inr rfl)
+
 /-
-Not proved of the model: `specFlip` for a byte in a torn tail (`locate = none`; only the
-"nothing is delivered altered" clauses apply there — it needs the invariant to remember
-*which* appended record the tail is a prefix of), and for a byte in the 8-byte sequence
-field, where `specFlip` is *false* of the model and of the code — the known finding
-`seq-flip-undetected` (`C15_counterexample_seqflip_undetected`).  The harness evaluates
-`specFlip` on the implementation for all regions and compares the model with the
-implementation on the same cases.
+`specFlip` is thereby proved of the model for every byte of every file except the bytes of the
+8-byte sequence fields, where it is *false* of the model and of the code — the known finding
+`seq-flip-undetected` (`C15_counterexample_seqflip_undetected`).  The length-prefix and
+torn-tail regions need the decoder contract in its prefix-free form (`PFEntry`);
+`C15_counterexample_len_flip_needs_prefix_free` shows that it cannot be dropped.
 -/
 
 /-! ### the pinned tree violated the property (witnesses replayed by the corpus) -/
@@ -420,6 +503,9 @@ example : locate [⟨1, [7]⟩, ⟨2, [9]⟩] 12 = some (0, .entry)
 example : ∀ m, m < ([1, 7] : Bytes).length → decLen (([1, 7] : Bytes).take m) = none := by decide
 
 example : WFEntry decLen [1, 7] := ⟨by decide, fun rest => by simp [decLen]⟩
+
+example : PFEntry decLen [1, 7] :=
+  ⟨⟨by decide, fun rest => by simp [decLen]⟩, by decide⟩
 
 example : (durability [.append [7], .flush, .append [8], .crash 30, .append [9]] false [] [])
     = [([7], true), ([8], false), ([9], true)] := by decide
